@@ -22,8 +22,9 @@
 From Irismod Require Export Base.Prelude.
 
 Definition two64 : Z := 18446744073709551616.
-(** Go's unchecked [supply - 1] on a uint64 *)
-Definition udec (a : Z) : Z := (a - 1) mod two64.
+(** Go's unchecked [supply - 1] on a uint64: wraps to 2^64-1 at zero (the counter itself is
+    assumed never to reach 2^64, see [nk_mint]) *)
+Definition udec (a : Z) : Z := if a =? 0 then two64 - 1 else a - 1.
 
 Definition getz {K} `{EqDec K} (k : K) (m : amap K Z) : Z :=
   match get k m with Some v => v | None => 0 end.
@@ -85,7 +86,8 @@ Definition delete_owner (c : cid) (t : tid) (o : option addr) (s : state) : stat
   with_index (with_owners s (del (c, t) (owners s)))
              (match o with Some a => idx_del (a, c, t) (index s) | None => index s end).
 
-(** Mint: class must exist, id must be free; setNFT, setOwner, incrTotalSupply *)
+(** Mint: class must exist, id must be free; setNFT, setOwner, incrTotalSupply ([supply + 1],
+    unchecked in Go: modelled without wrap-around, i.e. fewer than 2^64 tokens per class) *)
 Definition nk_mint (c : cid) (t : tid) (m : tmeta) (a : addr) (s : state) : option state :=
   if negb (has_class s c) then None
   else if has_nft s c t then None
